@@ -418,6 +418,8 @@ PROPS["C19"] = {
         leg("once-3-throw1", "c19_once", (1, 2), {"callers": 3, "mask": 1}, flags=("-fp", "-hb"), what="three callers, first attempt throws", weight=3.0),
         leg("once-3-throw2", "c19_once", (1, 2), {"callers": 3, "mask": 2}, flags=("-fp", "-hb"), what="three callers, second attempt throws", weight=3.0),
         leg("once-inner", "c19_once", (1, 2), {"callers": 2, "mask": 0, "inner": 1}, flags=("-fp", "-hb"), what="the function runs a task_group: waiting callers moonlight in the winner's arena", weight=3.0),
+        leg("once-cancelled-caller", "c19_once", (1, 2), {"callers": 2, "mask": 0, "inner": 1, "cancelled": 1}, flags=("-fp", "-hb"), what="one caller calls from inside a task whose task_group is already cancelled: the function still runs to completion exactly once, its own nested tasks included, and the other caller sees the effects", weight=2.0),
+        leg("once-cancelled-caller-throw", "c19_once", (1, 2), {"callers": 2, "mask": 1, "inner": 1, "cancelled": 1}, flags=("-fp", "-hb"), what="same, the first attempt throws", weight=2.0),
         leg("once-inner-throw", "c19_once", (1, 2), {"callers": 2, "mask": 1, "inner": 1}, flags=("-fp", "-hb"), what="moonlighting + exception", weight=3.0),
     ],
 }
@@ -578,6 +580,7 @@ PROPS["C16"] = {
         leg("rt-isolate_nested", "c16_rt", (1, 2), {"kind": "isolate_nested"}, what="inside scope S, after a nested isolate scope returned, the thread waits for a task of S that runs on the worker while its pool holds a task spawned outside S", weight=2.0),
         leg("rt-isolate_wait", "c16_rt", (1, 2), {"kind": "isolate_nested", "nested": 0}, what="same without the nested scope", weight=2.0),
         leg("rt-isolate_proxy", "c16_rt", (1, 2), {"kind": "isolate_proxy"}, what="two workers: one holds a stolen task of the isolation scope, the other runs a non-isolated parallel_for with static_partitioner (affinity proxies in its pool) while the scope owner waits inside isolate with nothing to do: it must not run a chunk that arrives as a proxy", weight=3.0),
+        leg("mailbox-seq", "c16_mailbox", (0, 0), {}, flags=(), what="isolation on the mailbox side: every sequence of up to 3+1 mailed proxies with isolation tags none / 1 / 2 and up to 4 pops by takers with isolation none / 1 / 2 on one real mail_outbox: a taker inside a scope gets the oldest proxy of its own scope or nothing, nothing is lost or handed out twice"),
         leg("rt-observer_slot", "c16_rt", (2, 3), {"kind": "observer_slot"}, what="task_arena(2,2): the main thread stays in slot 0 while two application threads pass through execute(); an observer with a slow on_scheduler_exit counts a thread as inside from its entry callback to the end of its exit callback: the slot index must not be handed to the next thread before that"),
         leg("rt-isolate_critical", "c16_rt", (1, 2), {"kind": "isolate_critical"}, what="an isolated waiter with nothing to do must not run a critical task (priority flow-graph node) that another application thread submitted outside the scope", weight=2.0),
         leg("rt-priority", "c16_rt", (1, 2), {"kind": "priority"}, what="one worker, a low-priority arena whose loop chunks the worker holds in its own pool, and a high-priority arena that receives enqueued work: the worker must be handed over instead of draining its low-priority pool", weight=3.0),
